@@ -1,6 +1,7 @@
 package main
 
 import (
+	"go/token"
 	"fmt"
 	"go/types"
 	"sort"
@@ -20,6 +21,8 @@ const pkgQueueRes = "pkg/queuecontroller/controllers/resource_updater"
 
 func runC20(c *Ctx) {
 	runC20DesiredOnLive(c)
+	runC20ErrDrop(c)
+	runC20Inherit(c)
 	runC20Preemptibility(c)
 	p, fx := c.P, c.Fx
 	// ---- O1: the recomputed status fields are assigned on every path
@@ -751,4 +754,151 @@ func runC20DesiredOnLive(c *Ctx) {
 		}
 	}
 	c.Floor("O11", "MUSTDEF config-derived fields of desired-on-live objects", n, 3)
+}
+
+// C20-O12 (ERRDROP): an error of a computation that feeds a status is never silently dropped. The status controllers
+// sum per-pod and per-group quantities obtained from lookups (node GPU memory, resource claims, priority classes); a
+// lookup that fails returns a zero quantity together with its error. If that error is bound to a variable that is
+// never read (overwritten by the next `x, err :=`), the reconcile "succeeds" with the zero in the sum, the wrong status
+// is written, and nothing retries. In the status controllers every error result that is bound to a variable is read.
+func runC20ErrDrop(c *Ctx) {
+	p := c.P
+	n := 0
+	for _, pk := range []string{"pkg/podgroupcontroller", "pkg/queuecontroller"} {
+		for _, fn := range p.FuncsIn(pk) {
+			if isTestdataOrMock(fn) {
+				continue
+			}
+			for _, b := range fn.Blocks {
+				for _, in := range b.Instrs {
+					if ex, ok := in.(*ssa.Extract); ok && types.Identical(ex.Type(), errorType) {
+						n++
+					}
+				}
+			}
+			for _, in := range droppedErrors(fn) {
+				c.Viol("O12", "ERRDROP", funcKey(fn)+": an error result is read before it is overwritten or abandoned", instrPos(in),
+					"the error returned by this call is bound to a variable that is never read: a failed lookup contributes its zero value to the computed status, the reconcile reports success and the wrong status stays until something else changes")
+			}
+		}
+	}
+	c.Hold("O12", "ERRDROP", fmt.Sprintf("%d error results bound to variables in the status controllers, all read", n), 0, "held")
+	c.Floor("O12", "ERRDROP error results in the status controllers", n, 10)
+}
+
+// C20-O13 (SIBLING): what the operator inherits from the live object it never leaves unset on purpose. Before Deploy
+// compares desired with current, the FieldInherit functions copy server-defaulted fields (desired.F == nil ⇒
+// desired.F = current.F). That is only sound for fields the operands never express "unset" with: a field that an
+// operand assigns from the Config on some paths and leaves nil on others (objectSelector = nil when no pod label
+// selector is configured) would, once inherited, keep its old value for ever after the setting is removed.
+// Two cooperating sites, each fine alone: the inherit list, and the operand's conditional assignment.
+func runC20Inherit(c *Ctx) {
+	p := c.P
+	type fieldKey struct{ typ, fld string }
+	inherited := map[fieldKey]ssa.Instruction{}
+	for _, fn := range p.FuncsIn("pkg/operator/operands/known_types") {
+		if isTestdataOrMock(fn) || !strings.HasSuffix(fn.Name(), "FieldInherit") || len(fn.Params) != 2 {
+			continue
+		}
+		for _, in := range instrsIn(fn, func(in ssa.Instruction) bool { _, ok := in.(*ssa.Store); return ok }) {
+			st := in.(*ssa.Store)
+			fa, ok := st.Addr.(*ssa.FieldAddr)
+			if !ok {
+				continue
+			}
+			pt, ok := fa.X.Type().Underlying().(*types.Pointer)
+			if !ok {
+				continue
+			}
+			stt, ok := pt.Elem().Underlying().(*types.Struct)
+			if !ok {
+				continue
+			}
+			at, vt := termOf(st.Addr), termOf(st.Val)
+			fromCurrent := vt.contains(func(x *Term) bool { return x.Op == "param" && x.V == ssa.Value(fn.Params[0]) })
+			intoDesired := at.contains(func(x *Term) bool { return x.Op == "param" && x.V == ssa.Value(fn.Params[1]) })
+			if fromCurrent && intoDesired && vt.lastField() == stt.Field(fa.Field).Name() {
+				inherited[fieldKey{typeKey(pt.Elem()), stt.Field(fa.Field).Name()}] = in
+			}
+		}
+	}
+	c.Floor("O13", "SIBLING inherited fields", len(inherited), 2)
+	var mayBeNil func(v ssa.Value, d int) bool
+	mayBeNil = func(v ssa.Value, d int) bool {
+		switch x := v.(type) {
+		case *ssa.Const:
+			return x.IsNil()
+		case *ssa.Phi:
+			if d > 4 {
+				return false
+			}
+			for _, e := range x.Edges {
+				if mayBeNil(e, d+1) {
+					return true
+				}
+			}
+		case *ssa.Extract:
+			// a result of a module helper: nil on some return?
+			if call, ok := x.Tuple.(*ssa.Call); ok {
+				if cal := calleeOf(call); cal != nil && hasModPrefix(cal) && d <= 4 {
+					for _, b := range cal.Blocks {
+						if ret, ok := b.Instrs[len(b.Instrs)-1].(*ssa.Return); ok && x.Index < len(ret.Results) && mayBeNil(unspill(ret, x.Index), d+1) {
+							return true
+						}
+					}
+				}
+			}
+		case *ssa.UnOp:
+			if a, ok := x.X.(*ssa.Alloc); ok && x.Op == token.MUL {
+				// a named result / local: nil unless stored on every path — any missing store keeps the zero value
+				stores := 0
+				for _, r := range *a.Referrers() {
+					if st, ok := r.(*ssa.Store); ok && st.Addr == ssa.Value(a) {
+						stores++
+						if mayBeNil(st.Val, d+1) {
+							return true
+						}
+					}
+				}
+				if stores > 0 {
+					for _, r := range *a.Referrers() {
+						if st, ok := r.(*ssa.Store); ok && st.Addr == ssa.Value(a) && !dominatesInstr(st, x) {
+							return true // assigned only on some paths: the zero value (nil) reaches the load on the others
+						}
+					}
+				}
+			}
+		}
+		return false
+	}
+	n := 0
+	for _, fn := range p.FuncsIn("pkg/operator/operands") {
+		if isTestdataOrMock(fn) || strings.Contains(funcPkgPath(fn), "/known_types") {
+			continue
+		}
+		for _, in := range instrsIn(fn, func(in ssa.Instruction) bool { _, ok := in.(*ssa.Store); return ok }) {
+			st := in.(*ssa.Store)
+			fa, ok := st.Addr.(*ssa.FieldAddr)
+			if !ok {
+				continue
+			}
+			pt, ok := fa.X.Type().Underlying().(*types.Pointer)
+			if !ok {
+				continue
+			}
+			stt, ok := pt.Elem().Underlying().(*types.Struct)
+			if !ok {
+				continue
+			}
+			k := fieldKey{typeKey(pt.Elem()), stt.Field(fa.Field).Name()}
+			inh, isInh := inherited[k]
+			if !isInh {
+				continue
+			}
+			n++
+			c.Check(!mayBeNil(st.Val, 0), "O13", "SIBLING", funcKey(fn)+": "+k.fld+" (inherited from the live object when nil) is never left nil on purpose", instrPos(in), "always set",
+				"the operand leaves "+k.fld+" nil on some paths (setting not configured) while "+funcKey(inh.Parent())+" fills a nil "+k.fld+" from the live object ("+p.Pos(instrPos(inh))+"): after the setting is removed from the Config the old value is inherited, desired equals current, and the cluster never converges")
+		}
+	}
+	c.Floor("O13", "SIBLING operand assignments of inherited fields", n, 1)
 }
